@@ -143,6 +143,19 @@ func (d *protoDom) step(st *sState, in ssa.Instruction) bool {
 		}
 	case *ssa.Alloc:
 		elemT := x.Type().Underlying().(*types.Pointer).Elem()
+		// a local array of field elements / scalars / big integers: one object per element
+		if at, ok := elemT.Underlying().(*types.Array); ok && at.Len() <= 64 {
+			if k := allocKind(at.Elem()); k == "elem" || k == "scalar" || k == "big" {
+				id := e.newID()
+				arr := &hArray{elems: make([]sVal, at.Len())}
+				for i := range arr.elems {
+					arr.elems[i] = d.newObj(st, k, pC(0))
+				}
+				st.heap[id] = arr
+				st.vals[x] = sPtr{id, -1}
+				return true
+			}
+		}
 		if k := allocKind(elemT); k != "" && !(k == "point" && d.structPoints) {
 			var t *pt
 			if k == "big" || k == "elem" || k == "scalar" {
@@ -295,6 +308,17 @@ func (d *protoDom) step(st *sState, in ssa.Instruction) bool {
 		}
 	case *ssa.IndexAddr:
 		a := e.get(st, x.X)
+		// the address of an element of an array of protocol objects denotes that object
+		if ap, ok := a.(sPtr); ok && ap.idx == -1 {
+			if arr, ok := st.heap[ap.id].(*hArray); ok {
+				if c, ok := constOf(e.get(st, x.Index)); ok && c.IsInt64() && c.Int64() >= 0 && int(c.Int64()) < len(arr.elems) {
+					if po, isObj := arr.elems[c.Int64()].(pObj); isObj {
+						st.vals[x] = po
+						return true
+					}
+				}
+			}
+		}
 		if pb, ok := a.(pBytes); ok {
 			if c, ok := constOf(e.get(st, x.Index)); ok {
 				st.vals[x] = pByteRef{pb.t, int(c.Int64())}
